@@ -14,6 +14,7 @@
        -> ok|raised '|' state of every queried path after the call: N (nothing) | D | F<hex>, joined by ';'
    safe_comp|hex -> 1|0          check_parts|hex list -> 1|0 (1 = no ValueError)
    resolve|hex list -> hex list  checked_target|dest hex list|name hex|path hex list -> none | hex list
+   parts|hex -> hex list (PurePosixPath(s).parts)     joinparts|dest hex list|full hex -> hex list (Path(os.path.join(dest, full)).parts)
    safe_b|hex -> 1|0 (element given by its raw bytes: a str iff valid UTF-8)      utf8|hex -> 1|0
    extract|<hex of the metafile's bytes>
        -> "none" (Metadata(path) raises) or  name|meta version|piece length|pieces|is_file|entries
@@ -105,6 +106,8 @@ let dispatch fields = match fields with
   | ["checked_target"; dest; name; path] ->
       (match checked_target (bytes_list_of_field dest) (chars_of_hex name) (bytes_list_of_field path) with
        | None -> "none" | Some t -> field_of_bytes_list t)
+  | ["parts"; s] -> field_of_bytes_list (parts_of (chars_of_hex s))
+  | ["joinparts"; dest; full] -> field_of_bytes_list (join_parts (bytes_list_of_field dest) (chars_of_hex full))
   | ["safe_b"; c] -> if safe_b (chars_of_hex c) then "1" else "0"
   | ["utf8"; c] -> if utf8_valid (chars_of_hex c) then "1" else "0"
   | ["extract"; file] ->
